@@ -96,6 +96,7 @@ type Ctx struct {
 	stopped  bool
 	HorizonD time.Duration
 	lastMs   int64
+	tainted  bool
 }
 
 const tailLen = 120
@@ -144,6 +145,7 @@ func (c *Ctx) Viol(prop, oracle string, facts map[string]any, f string, a ...any
 	if n >= 3 {
 		return
 	}
+	c.tainted = true
 	c.Logf("VIOLATION %s %s %v: %s", prop, oracle, facts, msg)
 	c.Res.Violations = append(c.Res.Violations, Violation{Property: prop, Oracle: oracle, Facts: facts, Message: msg, AtMs: c.NowMs()})
 	if c.Job.Property == "" || prop == c.Job.Property {
@@ -155,6 +157,10 @@ func (c *Ctx) Viol(prop, oracle string, facts map[string]any, f string, a ...any
 }
 
 func (c *Ctx) Stopped() bool { return c.stopped || c.Sch.Stopping() }
+
+// Tainted: some monitor (of any property) reported a violation in this run; model-based worlds
+// stop using the run because their model may no longer match the system.
+func (c *Ctx) Tainted() bool { return c.tainted }
 
 // Ov returns an override value (minimiser / probes can pin configuration values).
 func (c *Ctx) Ov(key string) (string, bool) {
